@@ -98,9 +98,10 @@ def injectivity_obligations():
                 ob = Obligation(f"hdl21.params:_unique_name/{shape}/raises.{r[1].cls.__name__}", "raises", r[0],
                                 z3.BoolVal(False), "hdl21.params:_unique_name", shape, 0)
                 ob.meta["trace"] = list(r[3].trace) + [r[1].note]
+                ob.meta["havoc"] = list(r[3].ghost.get("havoc", ()))
                 obs.append(ob)
-        for i, (pc1, n1, v1, _) in enumerate(readable1):
-            for j, (pc2, n2, v2, _) in enumerate(readable2):
+        for i, (pc1, n1, v1, s1_) in enumerate(readable1):
+            for j, (pc2, n2, v2, s2_) in enumerate(readable2):
                 same = []
                 for f in fields:
                     a, b = v1[f], v2[f]
@@ -110,7 +111,8 @@ def injectivity_obligations():
                         same.append(a[1] == b[1])
                 goal = z3.Implies(zstr(n1) == zstr(n2), z3.And(same))
                 obs.append(Obligation(f"hdl21.params:_unique_name/{shape}/injective/p{i}xp{j}", "lemma", pc1 + pc2, goal,
-                                      "hdl21.params:_unique_name", shape, i * 100 + j))
+                                      "hdl21.params:_unique_name", shape, i * 100 + j,
+                                      {"havoc": list(s1_.ghost.get("havoc", ())) + list(s2_.ghost.get("havoc", ()))}))
             # a readable name always contains '=' (so it cannot coincide with a hex digest)
             obs.append(Obligation(f"hdl21.params:_unique_name/{shape}/readable-has-equals/p{i}", "post", pc1,
                                   z3.Contains(zstr(n1), z3.StringVal("=")), "hdl21.params:_unique_name", shape, i))
